@@ -135,10 +135,6 @@ def truncate(args):
         ctx.check('rank-first', Or(*[fr(a) > fr(b) for a in res for b in dropped]))
         if distinct == n:
             ctx.check('crowding-second', Or(*[And(fr(a) == fr(b), _lt(cr(a), cr(b))) for a in res for b in dropped]))
-        # the result is ordered (front ascending, crowding descending)
-        ctx.check('sorted-output', Or(*[Or(fr(res[i]) > fr(res[i + 1]),
-                                           And(fr(res[i]) == fr(res[i + 1]), _lt(cr(res[i]), cr(res[i + 1]))))
-                                        for i in range(len(res) - 1)]))
     return body
 
 
